@@ -232,6 +232,9 @@ class Lib:
         np["array2string"] = LibFunc("np.array2string", self.np_array2string)
         np["set_printoptions"] = LibFunc("np.set_printoptions", lambda i, **k: cur().trace.append(("np.set_printoptions", dict(k), cur().where)))
         self.mods["re"] = {"sub": LibFunc("re.sub", self.re_sub)}
+        # wall-clock time: a fresh unconstrained real per call (only used for log messages in the repository; a result that
+        # depended on it could not be proved equal to its specification)
+        self.mods["time"] = {"time": LibFunc("time.time", lambda i: sv.fresh_real("clock"))}
         from . import libext
         libext.load_all(self)
 
@@ -804,7 +807,7 @@ class Lib:
             if isinstance(c, A.SeqVal):
                 n, fn = c.length, c.fn
                 v = args[0]
-                ref.set_content(A.SeqVal(A.simp(sv.add(n, 1)), lambda i, n=n, fn=fn, v=v: ite(sv.cmp("==", i, n), v, lambda: fn(i)) if sv.is_scalar(v) else (v if is_conc(i) and is_conc(n) and i == n else fn(i))))
+                ref.set_content(A.SeqVal(A.simp(sv.add(n, 1)), lambda i, n=n, fn=fn, v=v: ite(sv.cmp("==", i, n), v, lambda: fn(i)) if sv.is_scalar(v) else (v if A.dim_eq_syntactic(i, n) else fn(i))))
                 return None
             ref.set_content(tuple(c) + (args[0],))
             return None
